@@ -49,7 +49,7 @@ def t1(ctx):
     return obs
 
 
-@rule('T2', floor=3, title='nesting only for the owner thread; owner recorded after BEGIN, cleared at exit')
+@rule('T2', floor=5, title='nesting only for the owner thread; owner recorded after BEGIN, cleared at exit')
 def t2(ctx):
     f = _mgr(ctx)
     paths = [p for p in ctx.paths(f, 'manager') if p.kind != 'cut']
@@ -105,7 +105,44 @@ def t2(ctx):
             if not cleared:
                 ok_c = False
                 wit_c = fmt_trace(p.trace)
+    # the owner field is cleared BEFORE the statement that ends the transaction (which may raise)
+    ok_d, wit_d = True, None
+    for p in paths:
+        ys = _yields(p.trace)
+        if not ys:
+            continue
+        y = ys[0]
+        if not [i for i in _begin_ok(p.trace) if i < y]:
+            continue
+        ends = [e for e in p.trace[y:] if e.kind == 'SQL' and e.d['stmt'] is not None and
+                e.d['stmt'].kind in ('commit', 'rollback')]
+        clears = [e for e in p.trace[y:] if e.kind == 'SETATTR' and e.d['attr'] in owner_attrs
+                  and e.d['val'].is_const and e.d['val'].val is None]
+        if ends and (not clears or clears[0].seq > ends[0].seq):
+            ok_d = False
+            wit_d = fmt_trace(p.trace)
+    # nobody but the manager (and the constructor) assigns the owner field
+    import ast as _ast
+    writers = []
+    for g in ctx.prog.all_funcs():
+        if g.module != 'core' or g is f or g.name == '__init__':
+            continue
+        from .model import walk_shallow as _ws
+        for n in _ws(g.node):
+            if isinstance(n, _ast.Attribute) and isinstance(n.ctx, (_ast.Store, _ast.Del)) and n.attr in owner_attrs:
+                writers.append((g, n))
+            if isinstance(n, _ast.Call) and getattr(n.func, 'id', '') in ('setattr', 'delattr') and len(n.args) > 1 \
+                    and isinstance(n.args[1], _ast.Constant) and n.args[1].value in owner_attrs:
+                writers.append((g, n))
     loc = f.loc()
+    obs.append(Ob('T2', 'owner-cleared-before-end-statement', ok_d and n_outer > 0,
+                  'the owner field is cleared only after COMMIT/ROLLBACK: if that statement raises (I/O error, busy), '
+                  'the field stays set and every later operation of the thread joins a transaction that does not '
+                  'exist (no BEGIN, no lock)', loc, wit_d))
+    obs.append(Ob('T2', 'owner-written-only-by-manager', not writers,
+                  'the owner field of the open transaction is assigned outside the transaction manager (%s): another '
+                  'thread can reset it while the owner is inside its block, which then re-BEGINs or lets others join'
+                  % ', '.join(sorted({g.qual for g, _ in writers})), writers[0][0].loc(writers[0][1]) if writers else loc))
     obs.append(Ob('T2', 'join-only-owner', ok_a and n_nested > 0 and bool(owner_attrs),
                   'a path reaches the yield without BEGIN and without the test threading.get_ident() == owner '
                   'field being true: another thread would join the open transaction', loc, wit_a))
